@@ -269,7 +269,10 @@ def is_s3_object_available(url: str,
                         )
                     try:
                         s3file.s3_object.load()
-                    except botocore.exceptions.ClientError:
+                    except (botocore.exceptions.ClientError,
+                            botocore.exceptions.BotoCoreError):
+                        # The object does not exist / access denied, or
+                        # the connection was lost after the socket check.
                         avail = False
                     else:
                         avail = True
